@@ -175,6 +175,23 @@ func (g *graphGen) objectBody(self int, total int, usedKeys map[string]bool) *mo
 	if st := g.stringTypeIdx(self); len(st) > 0 && r.Chance(1, 3) {
 		k := tname(mon.Pick(r, st))
 		o.Props = append(o.Props, model.PShort(k, scalarExample(r)))
+		// a second (third) key shortcut of another key type: every one of them has to work,
+		// whichever is declared first
+		for extra := 0; extra < 2 && len(st) > 1 && r.Chance(1, 2); extra++ {
+			k2 := tname(mon.Pick(r, st))
+			dup := false
+			for _, p := range o.Props {
+				dup = dup || (p.Shortcut && p.Key == k2)
+			}
+			if dup {
+				break
+			}
+			v2 := scalarExample(r)
+			if r.Bool() {
+				v2.Rules = append(v2.Rules, model.RBool("optional", true))
+			}
+			o.Props = append(o.Props, model.PShort(k2, v2))
+		}
 		if r.Chance(1, 3) {
 			mon.Shuffle(r, o.Props)
 		}
